@@ -38,11 +38,14 @@ def killPrefix (live pending : List Entity) : List Entity → Nat →
     if live.contains e then killPrefix (live.erase e) (pending.erase e) es (pos + 1)
     else (live, pending, .err pos)
 
-/-- Insertion sort by index (the join order). -/
-def insertById (e : Entity) : List Entity → List Entity
-  | [] => [e]
-  | x :: xs => if e.id ≤ x.id then e :: x :: xs else x :: insertById e xs
-def sortById (l : List Entity) : List Entity := l.foldr insertById []
+/-- Strictly ascending by index (the join order). -/
+def ascById : List Entity → Bool
+  | a :: b :: t => decide (a.id < b.id) && ascById (b :: t)
+  | _ => true
+
+/-- `es` lists exactly the handles of `live`, in strictly ascending index order. -/
+def joinOk (live es : List Entity) : Bool :=
+  ascById es && es.all (fun e => live.contains e) && live.all (fun e => es.contains e)
 
 /-- One monitor step. `Except.error why` = the transcript violates the named property. -/
 def step (s : EntSpec) : EntEv → Except String EntSpec
@@ -72,7 +75,7 @@ def step (s : EntSpec) : EntEv → Except String EntSpec
     if s.live.contains e == r then .ok s
     else .error "C02 is_alive differs from the create/delete/maintain timeline"
   | .join es =>
-    if es == sortById s.live then .ok s
+    if joinOk s.live es then .ok s
     else .error "C02 entities join differs from the set of alive entities"
   | .deleteAll => .ok { s with live := [], pending := [] }
 
